@@ -2,7 +2,7 @@ SPECIFICATION Spec
 CONSTANTS
   Part = "one"
   UNames <- UNone
-  UNames3 <- UNum
+  UNames3 <- UNum4
   MaxLen = 4
   ArgsOne <- AScalar
   ArgsPair <- APairAll
